@@ -268,11 +268,13 @@ func (this *DatasetManager) processSnapshot(data []byte) error {
 		return err
 	}
 
+	inSnapshot := make(map[uuid.UUID]struct{})
 	for _, dataset := range dmSnapshot.Datasets {
 		id, err := uuid.FromBytes(dataset.GetId())
 		if err != nil {
 			return err
 		}
+		inSnapshot[id] = struct{}{}
 		if _, exists := this.datasets[id]; !exists {
 			this.datasets[id], err = newDataset(id, *dataset, this.raftWalDB, this.raftTransport, this.clusterConn, this)
 			if err != nil {
@@ -281,6 +283,16 @@ func (this *DatasetManager) processSnapshot(data []byte) error {
 			for _, partition := range this.datasets[id].partitions {
 				this.allocator.watch(partition)
 			}
+		}
+	}
+	// The snapshot is the whole catalogue: datasets that it does not contain
+	// were deleted while this node was behind.
+	for id, dataset := range this.datasets {
+		if _, exists := inSnapshot[id]; !exists {
+			for _, partition := range dataset.partitions {
+				this.allocator.unwatch(partition.id)
+			}
+			delete(this.datasets, id)
 		}
 	}
 	return nil
